@@ -200,7 +200,29 @@ func C13Apply(r *simkit.Run) {
 		fkChild = ddlTable(cid)
 		r.Probe("foreign-keys-enforced")
 	}
+	// Sometimes the target already holds a foreign-key violation of its own (an orphan row in tables
+	// the directory knows nothing about): Atlas tolerates what was there before a transaction and
+	// refuses only *new* violations, so a statement that replaces the old orphan by another one
+	// must still make the commit fail.
+	preViolation := false
+	if w.FK && t.Chance("violation-present-before", 1, 3) {
+		db, err := observe.Open(w.DB)
+		if err != nil {
+			simkit.Harnessf("open: %v", err)
+		}
+		if _, err := db.Exec("CREATE TABLE pre_parent (id integer PRIMARY KEY); CREATE TABLE pre_child (id text PRIMARY KEY, pid integer REFERENCES pre_parent (id)); INSERT INTO pre_child VALUES ('pre', 111111)"); err != nil {
+			simkit.Harnessf("pre-existing violation: %v", err)
+		}
+		db.Close()
+		preViolation = true
+		r.Probe("foreign-key-violation-present-before")
+	}
 	mkBad := func(tag string, k int) Stmt {
+		if preViolation && t.Chance("bad-replaces-the-old-orphan", 1, 2) {
+			r.Probe("failing-statement-replaces-an-old-violation-by-a-new-one")
+			id := fmt.Sprintf("%s.s%d", tag, k)
+			return Stmt{ID: id, Kind: KBad, SQL: "REPLACE INTO pre_child (id, pid) VALUES ('pre', 424242)"}
+		}
 		if fkChild != "" && t.Chance("bad-by-foreign-key", 1, 2) {
 			r.Probe("failing-statement-violates-foreign-key")
 			id := fmt.Sprintf("%s.s%d", tag, k)
@@ -244,6 +266,9 @@ func C13Apply(r *simkit.Run) {
 			args = append(args, fmt.Sprint(n))
 		}
 		args = append(args, "--dir", w.DirURL(), "--url", w.URL(), "--tx-mode", g)
+		if preViolation {
+			args = append(args, "--allow-dirty")
+		}
 		return w.Atlas(nil, args...)
 	}
 	sigOf := func(f *MFile) string {
